@@ -34,3 +34,25 @@ def alg(pp, g, data):
 
 def raw(x):
     return x.tensor() if hasattr(x, 'ltype') else x
+
+
+def tangent_basis(env, op, g, X):
+    """V[j] = d/dtau_j ( Exp(tau) * X ) at tau = 0, through the real {g}_Mul.forward; shape (dof, dim)"""
+    mul = getattr(op, g + '_Mul').forward
+    T = env.T
+    n = S.DOF[g]
+    if env.sym:
+        from pvc import algebra as A, storch as st
+        c = A.CTX
+        taus = [c.sym(f'_tau{j}', aux=True) for j in range(n)]
+        tv = [list(t.num.vars())[0] for t in taus]
+        Y = mul(S.first_order_element(T, g, st.tensor(taus)), X)
+        rows = []
+        zero = {v: A.Frac.const(0) for v in tv}
+        for v in tv:
+            rows.append([A.Frac(e.num.pdiff(v)).subs(zero) for e in Y._a.flat])
+        return st.tensor(rows)
+    Xd = X.detach()
+    J = T.autograd.functional.jacobian(lambda tau: mul(S.first_order_element(T, g, tau), Xd),
+                                       T.zeros(n, dtype=X.dtype))
+    return J.transpose(-1, -2)
